@@ -344,6 +344,7 @@ def summarize(report, results, prop):
             inconcl.append(r['unit'])
         if st in ('unsupported', 'harness-error'):
             unsup.append([r['unit'], r.get('detail')])
+            report.harness_errors.append('NOT COVERED (code outside the encoder or harness failure): %s - %s' % (r['unit'], str(r.get('detail'))[:160]))
         if st == 'vacuous':
             vac.append(r['unit'])
             report.harness_errors.append('vacuous harness %s: twins %s' % (r['unit'], r.get('twins')))
